@@ -1,6 +1,7 @@
 #include "seams.h"
 
 #include <libxml/xmlIO.h>
+#include <libxml/xmlmemory.h>
 
 #include <algorithm>
 #include <cerrno>
@@ -91,7 +92,7 @@ static void* sim_alloc(size_t size, size_t align, bool nothrow)
                 return nullptr;
             throw std::bad_alloc{};
         }
-        if (g_op.ceiling && g_op.allocs + g_op.io_calls > g_op.ceiling && g_on_ceiling) {
+        if (g_op.ceiling && g_op.cost() > g_op.ceiling && g_on_ceiling) {
             g_on_ceiling();
         }
     }
@@ -158,7 +159,7 @@ static long source_read(Source& s, void* buf, size_t want)
     ++s.ncalls;
     if (g_op.in_call) {
         ++g_op.io_calls;
-        if (g_op.ceiling && g_op.allocs + g_op.io_calls > g_op.ceiling && g_on_ceiling)
+        if (g_op.ceiling && g_op.cost() > g_op.ceiling && g_on_ceiling)
             g_on_ceiling();
     }
     if (s.sticky_err) {
@@ -283,7 +284,7 @@ static int out_write(void* ctx, const char* buf, int len)
     ++c->sink->nwrites;
     if (g_op.in_call) {
         ++g_op.io_calls;
-        if (g_op.ceiling && g_op.allocs + g_op.io_calls > g_op.ceiling && g_on_ceiling)
+        if (g_op.ceiling && g_op.cost() > g_op.ceiling && g_on_ceiling)
             g_on_ceiling();
     }
     if (c->sink->failed) {
@@ -396,12 +397,44 @@ static void exit_hook()
         g_on_exit_in_call();
 }
 
+// libxml2's allocator: counted per call (entity expansion and buffer growth happen here, not in operator new) and
+// subject to the same cost ceiling; never failed (a failure inside libxml2 would test libxml2, not libutap)
+static void xml_count(size_t n)
+{
+    if (g_op.in_call && !g_in_seam) {
+        ++g_op.xml_allocs;
+        g_op.xml_bytes += n;
+        if (g_op.ceiling && g_op.cost() > g_op.ceiling && g_on_ceiling)
+            g_on_ceiling();
+    }
+}
+static void* xml_malloc(size_t n)
+{
+    xml_count(n);
+    return std::malloc(n);
+}
+static void* xml_realloc(void* p, size_t n)
+{
+    xml_count(n);
+    return std::realloc(p, n);
+}
+static char* xml_strdup(const char* s)
+{
+    size_t n = strlen(s) + 1;
+    xml_count(n);
+    char* r = (char*)std::malloc(n);
+    if (r)
+        memcpy(r, s, n);
+    return r;
+}
+
 void seams_init()
 {
     static bool done = false;
     if (done)
         return;
     done = true;
+    xmlMemSetup(std::free, xml_malloc, xml_realloc, xml_strdup);
     xmlRegisterDefaultInputCallbacks();
     xmlRegisterInputCallbacks(in_match, in_open, in_read, in_close);
     xmlRegisterDefaultOutputCallbacks();
